@@ -1075,7 +1075,6 @@ End Chain.
 
 Section RoundTrip.
 Variable b64_norm : str -> option str.
-Variable key_norm : str -> option str.
 
 (* what elem_v1 produces *)
 Record v1_elem (e : celem) : Prop := {
@@ -1123,7 +1122,7 @@ Proof.
 Qed.
 
 Lemma elem_v1_roundtrip e :
-  v1_elem e -> exists j, elem_to_json key_norm e = Some j /\ elem_v1 j = LOk e.
+  v1_elem e -> exists j, elem_to_json e = Some j /\ elem_v1 j = LOk e.
 Proof.
   intros [Hk (x & Hn & Hx) Ht Hm Hs H1 H2].
   destruct e as [nm sb kd tw msg sg x1 x2].
@@ -1173,14 +1172,14 @@ Qed.
 
 Lemma rebuild_v1 : forall t2 t1 js,
   keys_unique (t1 ++ t2) -> tbl_v1 t2 ->
-  all_some (map (fun kv => elem_to_json key_norm (snd kv)) t2) = Some js ->
+  all_some (map (fun kv => elem_to_json (snd kv)) t2) = Some js ->
   build_table elem_v1 js t1 = LOk (t1 ++ t2).
 Proof.
   induction t2 as [|[k e] r IH]; intros t1 js Hu Hv; cbn [map all_some snd].
   - intro H. inversion H; subst. rewrite app_nil_r. reflexivity.
   - apply Forall_cons_iff in Hv. destruct Hv as [[Hk He] Hr]. cbn [fst snd] in Hk, He. subst k.
     destruct (elem_v1_roundtrip e He) as (j & Hj & Hl). rewrite Hj.
-    destruct (all_some (map (fun kv => elem_to_json key_norm (snd kv)) r)) as [js'|] eqn:Ea;
+    destruct (all_some (map (fun kv => elem_to_json (snd kv)) r)) as [js'|] eqn:Ea;
       [|discriminate].
     intro H. inversion H; subst. cbn [build_table]. rewrite Hl.
     destruct (v1_name _ He) as (x & Hx & _). rewrite Hx at 1. cbn [hashable].
@@ -1193,7 +1192,7 @@ Proof.
 Qed.
 
 Lemma all_some_v1 t : tbl_v1 t ->
-  exists js, all_some (map (fun kv => elem_to_json key_norm (snd kv)) t) = Some js.
+  exists js, all_some (map (fun kv => elem_to_json (snd kv)) t) = Some js.
 Proof.
   induction t as [|[k e] r IH]; intro H; cbn [map all_some snd]; [eexists; reflexivity|].
   apply Forall_cons_iff in H. destruct H as [[_ He] Hr]. cbn [snd] in He.
@@ -1206,7 +1205,7 @@ Qed.
    and values for every signature oracle *)
 Theorem v1_roundtrip m c :
   parse_cert b64_norm 1 m = LOk c ->
-  exists j, cert_to_json key_norm c = Some j /\ load_cert b64_norm j = LOk c.
+  exists j, cert_to_json c = Some j /\ load_cert b64_norm j = LOk c.
 Proof.
   intro H. apply parse_cert_inv in H.
   destruct H as (targets & items & t & _ & _ & Hb & Hc & ->).
@@ -1224,7 +1223,7 @@ Qed.
 
 Corollary v1_roundtrip_verdicts link m c :
   parse_cert b64_norm 1 m = LOk c ->
-  exists j c', cert_to_json key_norm c = Some j /\ load_cert b64_norm j = LOk c' /\
+  exists j c', cert_to_json c = Some j /\ load_cert b64_norm j = LOk c' /\
     c_targets c' = c_targets c /\ validate_all link c' = validate_all link c.
 Proof.
   intro H. destruct (v1_roundtrip m c H) as (j & H1 & H2). exists j, c. repeat split; assumption.
@@ -1232,10 +1231,7 @@ Qed.
 
 End RoundTrip.
 
-(* ---------- when saving fails (version 2 attestation-key elements only) ---------- *)
-
-Section SaveFails.
-Variable key_norm : str -> option str.
+(* ---------- saving never fails (since fix 68123f6 to_dict writes back what was loaded) ---------- *)
 
 Lemma all_some_none_iff {A} (l : list (option A)) : all_some l = None <-> In None l.
 Proof.
@@ -1248,58 +1244,32 @@ Proof.
   - split; [intros _; left; reflexivity|reflexivity].
 Qed.
 
-Lemma elem_to_json_none_iff e :
-  elem_to_json key_norm e = None <->
-  ce_kind e = KAttKey /\
-  (fromhex (ce_message e) = None \/ key_norm (ce_extra1 e) = None \/
-   exists mb, fromhex (ce_message e) = Some mb /\ length mb < 384).
-Proof.
-  unfold elem_to_json. destruct (ce_kind e); try (split; [discriminate|intros [H _]; discriminate]).
-  destruct (fromhex (ce_message e)) as [mb|].
-  - destruct (key_norm (ce_extra1 e)) as [k|].
-    + destruct (Nat.ltb (length mb) 384) eqn:E.
-      * split; [|reflexivity]. intros _. split; [reflexivity|]. right. right.
-        exists mb. split; [reflexivity|]. apply Nat.ltb_lt. exact E.
-      * split; [discriminate|]. intros [_ [H|[H|(mb' & H & H')]]]; try discriminate.
-        inversion H; subst. apply Nat.ltb_ge in E. lia.
-    + split; [|reflexivity]. intros _. split; [reflexivity|]. right. left. reflexivity.
-  - split; [|reflexivity]. intros _. split; [reflexivity|]. left. reflexivity.
-Qed.
+Lemma elem_to_json_total e : exists j, elem_to_json e = Some j.
+Proof. unfold elem_to_json. destruct (ce_kind e); eexists; reflexivity. Qed.
 
-Theorem cert_to_json_none_iff c :
-  cert_to_json key_norm c = None <->
-  exists k e, In (k, e) (c_elems c) /\ elem_to_json key_norm e = None.
+(* to_dict succeeds for every certificate, version 1 or 2, loaded or built in memory *)
+Theorem cert_to_json_total c : exists j, cert_to_json c = Some j.
 Proof.
   unfold cert_to_json.
-  destruct (all_some (map (fun kv => elem_to_json key_norm (snd kv)) (c_elems c))) eqn:E.
-  - split; [discriminate|]. intros (k & e & Hin & He). exfalso.
-    assert (H : In None (map (fun kv => elem_to_json key_norm (snd kv)) (c_elems c))).
-    { apply in_map_iff. exists (k, e). split; [exact He|exact Hin]. }
-    apply all_some_none_iff in H. congruence.
-  - split; [|reflexivity]. intros _. apply all_some_none_iff in E. apply in_map_iff in E.
-    destruct E as ([k e] & He & Hin). exists k, e. split; [exact Hin|exact He].
+  destruct (all_some (map (fun kv => elem_to_json (snd kv)) (c_elems c))) as [js|] eqn:E.
+  - eexists; reflexivity.
+  - exfalso. apply all_some_none_iff in E. apply in_map_iff in E.
+    destruct E as ([k e] & He & _). destruct (elem_to_json_total e) as [j Hj]. cbn [snd] in He.
+    congruence.
 Qed.
 
-(* saving fails exactly when some attestation-key element has a message that is not hex of at
-   least 384 bytes or a key the curve library rejects; never for version 1 *)
-Corollary cert_to_json_v2_none_iff c :
-  cert_to_json key_norm c = None <->
-  exists k e, In (k, e) (c_elems c) /\ ce_kind e = KAttKey /\
-    (fromhex (ce_message e) = None \/ key_norm (ce_extra1 e) = None \/
-     exists mb, fromhex (ce_message e) = Some mb /\ length mb < 384).
+(* the former characterisation of failing saves (short attestation-key message, undecodable
+   key): there is no such case any more *)
+Corollary cert_to_json_v2_none_iff c : cert_to_json c = None <-> False.
 Proof.
-  rewrite cert_to_json_none_iff. split; intros (k & e & Hin & H); exists k, e; split;
-    try exact Hin; apply elem_to_json_none_iff; exact H.
+  split; [|intros []]. intro H. destruct (cert_to_json_total c) as [j Hj]. congruence.
 Qed.
-
-End SaveFails.
 
 (* ---------- examples ---------- *)
 
 Module Examples.
 
 Definition no_b64 (x : str) : option str := Some x.
-Definition no_key (x : str) : option str := Some x.
 
 Definition el (name signer msg : string) : json :=
   JObj [(s "name", JStr (s name)); (s "message", JStr (s msg));
@@ -1397,7 +1367,7 @@ Proof. vm_compute. repeat split; reflexivity. Qed.
 
 Example chain4_roundtrip :
   match load_cert no_b64 chain4 with
-  | LOk c => match cert_to_json no_key c with
+  | LOk c => match cert_to_json c with
              | Some j => match load_cert no_b64 j with
                          | LOk c' => Some (list_eqb json_eqb (c_targets c) (c_targets c') &&
                                            Nat.eqb (length (c_elems c)) (length (c_elems c')))
@@ -1482,7 +1452,6 @@ Qed.
 
 Section RoundTrip2.
 Variable b64_norm : str -> option str.
-Variable key_norm : str -> option str.
 
 (* what elem_v2 produces *)
 Definition v2_elem (e : celem) : Prop :=
@@ -1551,12 +1520,11 @@ Proof.
   repeat split. exists msg. exact Eb.
 Qed.
 
-(* the part of the round trip that rests on the codecs: re-encoding what was already
-   canonical changes nothing, and an attestation-key message is exactly the 384-byte body *)
+(* the part of the round trip that rests on the base64 codec: the text of an X.509 element,
+   which is already an output of b64encode(b64decode(.)), is a fixed point of it.  (Hex fields
+   need nothing: they are stored canonical and written back as stored.) *)
 Definition v2_stable (e : celem) : Prop :=
   match ce_kind e with
-  | KAttKey => (exists mb, fromhex (ce_message e) = Some mb /\ length mb = 384) /\
-               key_norm (ce_extra1 e) = Some (ce_extra1 e)
   | KX509 => b64_norm (ce_message e) = Some (ce_message e)
   | _ => True
   end.
@@ -1569,7 +1537,7 @@ Proof. vm_compute. repeat split; reflexivity. Qed.
 
 Lemma elem_v2_roundtrip e :
   v2_elem e -> v2_stable e ->
-  exists j, elem_to_json key_norm e = Some j /\ elem_v2 b64_norm j = LOk e.
+  exists j, elem_to_json e = Some j /\ elem_v2 b64_norm j = LOk e.
 Proof.
   destruct types_closed as (T1 & T2 & T3).
   intros [Ht Hv] Hs. destruct e as [nm sb kd tw msg sg x1 x2].
@@ -1584,14 +1552,10 @@ Proof.
     cbn -[str_in is_nonempty_hex_string canon_hex CERT_V2_TYPES].
     change (str_in _ CERT_V2_TYPES) with (str_in (s "sgx_quote") CERT_V2_TYPES).
     rewrite T1. cbn [negb]. rewrite H1, H2, H3, H1', H2', H3'. reflexivity.
-  - destruct Hv as (H1 & H2 & H3 & H4). destruct Hs as [(mb & Hmb & Hlen) Hk].
+  - destruct Hv as (H1 & H2 & H3 & H4).
     apply canonical_fix in H1, H2, H3. apply hex_or_empty_json_fix in H4.
-    destruct H1 as (H1 & H1' & b & Hb & Hb'), H2 as (H2 & H2' & _), H3 as (H3 & H3' & _),
+    destruct H1 as (H1 & H1' & _), H2 as (H2 & H2' & _), H3 as (H3 & H3' & _),
              H4 as (H4 & H4').
-    rewrite Hmb, Hk. rewrite Hb in Hmb. inversion Hmb; subst mb.
-    replace (Nat.ltb (length b) 384) with false by (symmetry; apply Nat.ltb_ge; lia).
-    replace (firstn 384 b) with b by (symmetry; rewrite <- Hlen; apply firstn_all).
-    rewrite <- Hb'.
     eexists. split; [reflexivity|]. unfold elem_v2.
     cbn -[str_in is_nonempty_hex_string canon_hex CERT_V2_TYPES hex_or_empty_json].
     change (str_in _ CERT_V2_TYPES) with (str_in (s "sgx_attestation_key") CERT_V2_TYPES).
@@ -1667,14 +1631,14 @@ Qed.
 Lemma rebuild_v2 : forall t2 t1 js,
   keys_unique (t1 ++ renamed t2) -> tbl_v2 t2 ->
   (forall k e, In (k, e) t2 -> v2_stable e) ->
-  all_some (map (fun kv => elem_to_json key_norm (snd kv)) t2) = Some js ->
+  all_some (map (fun kv => elem_to_json (snd kv)) t2) = Some js ->
   build_table (elem_v2 b64_norm) js t1 = LOk (t1 ++ renamed t2).
 Proof.
   induction t2 as [|[k e] r IH]; intros t1 js Hu Hv Hs; cbn [map all_some snd].
   - intro H. inversion H; subst. cbn [renamed map]. rewrite app_nil_r. reflexivity.
   - apply Forall_cons_iff in Hv. destruct Hv as [(Hk & Hh & He) Hr]. cbn [fst snd] in Hk, Hh, He.
     destruct (elem_v2_roundtrip e He (Hs k e (or_introl eq_refl))) as (j & Hj & Hl). rewrite Hj.
-    destruct (all_some (map (fun kv => elem_to_json key_norm (snd kv)) r)) as [js'|] eqn:Ea;
+    destruct (all_some (map (fun kv => elem_to_json (snd kv)) r)) as [js'|] eqn:Ea;
       [|discriminate].
     intro H. inversion H; subst. cbn [build_table]. rewrite Hl, Hh.
     cbn [renamed map snd] in Hu |- *. fold (renamed r) in Hu |- *.
@@ -1729,15 +1693,14 @@ Qed.
 
 Section RoundTrip2Thm.
 Variable b64_norm : str -> option str.
-Variable key_norm : str -> option str.
 
 (* a loaded version-2 certificate whose elements are already in the codecs' canonical form
    saves, and the saved document loads to a certificate with the same targets, the same
    elements under the same names, and the same verdicts for every signature oracle *)
 Theorem v2_roundtrip m c :
   parse_cert b64_norm 2 m = LOk c ->
-  (forall k e, In (k, e) (c_elems c) -> v2_stable b64_norm key_norm e) ->
-  exists j, cert_to_json key_norm c = Some j /\
+  (forall k e, In (k, e) (c_elems c) -> v2_stable b64_norm e) ->
+  exists j, cert_to_json c = Some j /\
     load_cert b64_norm j = LOk (mkCert 2 (c_targets c) (renamed (c_elems c))) /\
     tbl_equiv (c_elems c) (renamed (c_elems c)) /\
     forall link, validate_all link (mkCert 2 (c_targets c) (renamed (c_elems c)))
@@ -1747,15 +1710,15 @@ Proof.
   destruct H as (targets & items & t & _ & _ & Hb & Hc & ->).
   change (factory_of b64_norm 2) with (elem_v2 b64_norm) in Hb.
   cbn [c_elems c_targets] in *.
-  pose proof (build_table_v2 b64_norm key_norm _ _ _ Hb (Forall_nil _)) as Hv.
+  pose proof (build_table_v2 b64_norm _ _ _ Hb (Forall_nil _)) as Hv.
   destruct (build_table_inv _ _ _ _ Hb) as (Hu & _ & _). specialize (Hu I).
   assert (Heq : tbl_equiv t (renamed t)).
   { split; [unfold renamed; rewrite map_length; reflexivity|].
     intro k. symmetry. apply (renamed_get b64_norm). exact Hv. }
   unfold cert_to_json. cbn [c_elems c_version c_targets].
-  destruct (all_some (map (fun kv => elem_to_json key_norm (snd kv)) t)) as [js|] eqn:Ejs.
+  destruct (all_some (map (fun kv => elem_to_json (snd kv)) t)) as [js|] eqn:Ejs.
   - eexists. split; [reflexivity|].
-    pose proof (rebuild_v2 b64_norm key_norm t [] js (renamed_unique b64_norm t Hv Hu) Hv Hs Ejs)
+    pose proof (rebuild_v2 b64_norm t [] js (renamed_unique b64_norm t Hv Hu) Hv Hs Ejs)
       as Hr. cbn [app] in Hr.
     split; [|split; [exact Heq|]].
     + unfold load_cert.
@@ -1768,7 +1731,54 @@ Proof.
   - exfalso. apply all_some_none_iff in Ejs. apply in_map_iff in Ejs.
     destruct Ejs as ([k e] & He & Hin). cbn [snd] in He.
     unfold tbl_v2 in Hv. rewrite Forall_forall in Hv. destruct (Hv _ Hin) as (_ & _ & Hve). cbn [snd] in Hve.
-    destruct (elem_v2_roundtrip b64_norm key_norm e Hve (Hs k e Hin)) as (j & Hj & _). congruence.
+    destruct (elem_v2_roundtrip b64_norm e Hve (Hs k e Hin)) as (j & Hj & _). congruence.
+Qed.
+
+(* the same under the one assumption about the base64 codec: b64encode(b64decode(.)) is
+   idempotent.  No condition on the certificate is left. *)
+Definition b64_idempotent : Prop := forall x y, b64_norm x = Some y -> b64_norm y = Some y.
+
+Lemma loaded_v2_stable m c :
+  b64_idempotent -> parse_cert b64_norm 2 m = LOk c ->
+  forall k e, In (k, e) (c_elems c) -> v2_stable b64_norm e.
+Proof.
+  intros Hi H k e Hin. apply parse_cert_inv in H.
+  destruct H as (targets & items & t & _ & _ & Hb & _ & ->).
+  change (factory_of b64_norm 2) with (elem_v2 b64_norm) in Hb.
+  pose proof (build_table_v2 b64_norm _ _ _ Hb (Forall_nil _)) as Hv.
+  unfold tbl_v2 in Hv. rewrite Forall_forall in Hv. destruct (Hv _ Hin) as (_ & _ & [_ He]).
+  cbn [snd] in He. unfold v2_stable. destruct (ce_kind e); try exact I.
+  destruct He as ((x & Hx) & _). eapply Hi. exact Hx.
+Qed.
+
+Theorem v2_roundtrip_codec m c :
+  b64_idempotent -> parse_cert b64_norm 2 m = LOk c ->
+  exists j, cert_to_json c = Some j /\
+    load_cert b64_norm j = LOk (mkCert 2 (c_targets c) (renamed (c_elems c))) /\
+    tbl_equiv (c_elems c) (renamed (c_elems c)) /\
+    forall link, validate_all link (mkCert 2 (c_targets c) (renamed (c_elems c)))
+                 = validate_all link c.
+Proof. intros Hi H. apply (v2_roundtrip m c H). eapply loaded_v2_stable; eassumption. Qed.
+
+(* every loaded certificate, version 1 or 2: it saves, and the saved document loads to a
+   certificate with the same version, targets, lookups and verdicts (for version 1: the very
+   same certificate; for version 2 the table keys are replaced by the element names, which
+   only matters for names like 1 / 1.0 / true that are equal as dict keys) *)
+Theorem load_save_load doc c :
+  b64_idempotent -> load_cert b64_norm doc = LOk c ->
+  exists j c', cert_to_json c = Some j /\ load_cert b64_norm j = LOk c' /\
+    c_version c' = c_version c /\ c_targets c' = c_targets c /\
+    tbl_equiv (c_elems c) (c_elems c') /\
+    forall link, validate_all link c' = validate_all link c.
+Proof.
+  intros Hi H. apply load_cert_inv in H.
+  destruct H as (m & v & ver & _ & _ & _ & [[_ ->]|(_ & _ & ->)] & H).
+  - destruct (v1_roundtrip b64_norm m c H) as (j & Hj & Hl). exists j, c.
+    repeat split; try assumption; reflexivity.
+  - destruct (v2_roundtrip_codec m c Hi H) as (j & Hj & Hl & He & Hv).
+    exists j, (mkCert 2 (c_targets c) (renamed (c_elems c))).
+    apply parse_cert_inv in H. destruct H as (? & ? & ? & _ & _ & _ & _ & ->).
+    repeat split; try assumption; apply He.
 Qed.
 
 End RoundTrip2Thm.
@@ -1824,8 +1834,8 @@ Example v2_key_differs_from_name :
   end.
 Proof. vm_compute. split; reflexivity. Qed.
 
-(* version 2, attestation key: saving keeps only the first 384 bytes of the message, so
-   without `v2_stable` the reloaded element differs from the loaded one *)
+(* version 2, attestation key: since fix 68123f6 saving writes the message back as loaded
+   (before it, only the first 384 bytes were kept and this reload differed) *)
 Definition hex385 : str := List.concat (repeat (s "ab") 385).
 
 Definition attkey : json :=
@@ -1833,13 +1843,13 @@ Definition attkey : json :=
         (s "message", JStr hex385); (s "key", JStr (s "04")); (s "auth_data", JStr (s "aa"));
         (s "signature", JStr (s "bb")); (s "signed_by", JStr (s "sgx_root"))].
 
-Example v2_attkey_message_truncated :
+Example v2_attkey_message_kept :
   match load_cert no_b64 (doc2 [attkey] [JStr (s "k")]) with
   | LOk c =>
-      match cert_to_json no_key c with
+      match cert_to_json c with
       | Some j => match load_cert no_b64 j with
                   | LOk c' => map (fun kv => length (ce_message (snd kv))) (c_elems c) = [770] /\
-                              map (fun kv => length (ce_message (snd kv))) (c_elems c') = [768]
+                              map (fun kv => length (ce_message (snd kv))) (c_elems c') = [770]
                   | LError => False end
       | None => False end
   | LError => False
